@@ -66,6 +66,9 @@ pub mod mecab;
 #[cfg_attr(docsrs, doc(cfg(feature = "train")))]
 pub mod trainer;
 
+#[cfg(feature = "verif-hooks")]
+pub mod verif;
+
 #[cfg(all(test, feature = "train"))]
 mod test_utils;
 #[cfg(test)]
